@@ -22,7 +22,7 @@ REQUIRED_CLASSES = ["writer-ok", "reader-accepts-valid",
 RULE = ("(writers) meshes with V in {0,1,3,4,8} vertices x M in {0,1,2,4,12} "
         "triangles (indices at the bounds, coordinates from {0,+-1.5,1e6,"
         "0.1}) x attribute sets (k in 1,3,4) x memory layouts {C, Fortran, strided, "
-        "transposed}: precomputed bytes == "
+        "transposed} and 13 other vertex / triangle array data types (narrow integers, float16/64, big-endian): precomputed bytes == "
         "struct layout, read back equal, VTK output parsed by a subset "
         "parser; (reader) every truncation, every byte position x all 256 "
         "values, count and index field "
@@ -62,6 +62,11 @@ def make_mesh(V, M):
 
 
 # ---------------------------------------------------------------- writers
+DTYPE_LAYOUTS = ["v:float64", "v:int8", "v:uint8", "v:int16", "v:uint16",
+                 "v:int32", "v:float16", "v:>f4", "v:>f8", "t:uint8",
+                 "t:uint16", "t:>u4", "t:>u2"]
+
+
 def _eval_writer(col, V, M, attrs_k, layout="C"):
     from neuroglancer_scripts import mesh
     case = {"kind": "writer", "V": V, "M": M, "attrs": attrs_k,
@@ -80,6 +85,14 @@ def _eval_writer(col, V, M, attrs_k, layout="C"):
     elif layout == "transposed":
         va = np.ascontiguousarray(va.T).T
         ta = np.ascontiguousarray(ta.T).T
+    elif layout.startswith("v:") or layout.startswith("t:"):
+        # other array data types (small integer coordinates, exactly
+        # representable in each of them)
+        if layout[0] == "v":
+            va = (np.arange(V * 3).reshape(V, 3) * 3 % 120).astype(
+                np.dtype(layout[2:]))
+        else:
+            ta = ta.astype(np.dtype(layout[2:]))
     ok = True
     try:
         b = io.BytesIO()
@@ -98,7 +111,7 @@ def _eval_writer(col, V, M, attrs_k, layout="C"):
     try:
         rv, rt = mesh.read_precomputed_mesh(io.BytesIO(want))
         if (rv.shape != (V, 3) or rv.dtype != np.float32
-                or not np.array_equal(rv, va)
+                or not np.array_equal(rv, va.astype(np.float32))
                 or np.asarray(rt).reshape(-1, 3).tolist() != ta.tolist()):
             ok = False
             col.violation("C17/round-trip/different-mesh", case,
@@ -593,6 +606,8 @@ def run_unit(u):
                 for attrs in ([], [1], [1, 3], [4, 1, 1]):
                     for layout in ("C", "F", "strided", "transposed"):
                         _eval_writer(col, V, M, attrs, layout)
+                for layout in DTYPE_LAYOUTS:
+                    _eval_writer(col, V, M, [], layout)
         col.sample({"kind": "writer", "V": 8, "M": 12, "attrs": [1, 3]})
     elif k == "reader":
         want = reader_bases()[u["base"]][2]
